@@ -61,23 +61,38 @@ def PrevOK : List Bool → Prop
   | [] => True
   | p :: bs => p = !bs.isEmpty ∧ PrevOK bs
 
+/-- the part of the invariant that also holds in the middle of a step -/
 structure Core (s : State) : Prop where
+  /-- FIFO: taken-so-far ++ queue = appended-so-far -/
   fifo : s.enq = s.deq ++ s.ready
+  /-- the handle of a coroutine exists iff its status is `ready`, and then exactly once, in the ready queue or
+  in the `suspend_now` loop of ordinary code -/
   handle_once : ∀ i, s.ready.count i + (loopIds s.base).count i = if s.st i = St.ready then 1 else 0
+  /-- a coroutine is blocked in a nested `start()` iff its status is `stacked`, and then exactly once -/
   stacked_once : ∀ i, s.calls.count i = if s.st i = St.stacked then 1 else 0
+  /-- whoever is registered as the awaiter of `d` is suspended on `d` (hence on nothing else) -/
   waiter_ok : ∀ d p, s.waiter d = some p → s.st p = St.waiting d
+  /-- made ready = resumed + pending, per coroutine -/
   once : ∀ i, s.made.count i = s.runs.count i + s.ready.count i + (loopIds s.base).count i
+  /-- `instance != nullptr` iff a block is open or an activation is pending -/
   active_iff : s.active = true ↔ (s.blocks ≠ [] ∨ s.base ≠ none)
+  /-- every saved `prev` says whether an enclosing block exists -/
   blocks_prev : PrevOK s.blocks
   loop_prev : ∀ l p, s.base = some (Base.loop l p) → p = !s.blocks.isEmpty
   callmain_block : s.base = some Base.callMain → s.blocks ≠ []
   calls_base : s.base = none → s.calls = []
+  /-- outside every block and every activation the ready queue is empty -/
   idle : s.blocks = [] → s.base = none → s.ready = []
 
+/-- invariant between two acts -/
 structure Inv (s : State) : Prop extends Core s where
+  /-- exactly the executing coroutine is `running` -/
   running_iff : ∀ i, s.st i = St.running ↔ s.cur = some i
+  /-- ordinary code executes iff no activation is pending below it -/
   cur_base : s.cur = none ↔ s.base = none
 
+/-- in the middle of a step: the running coroutine has suspended/finished, `settle` has not yet chosen the
+next one -/
 structure Mid (s : State) : Prop extends Core s where
   no_running : ∀ i, s.st i ≠ St.running
   has_base : s.base ≠ none
